@@ -17,7 +17,7 @@ RULE = ('case = (direction, body class, literal metadata, compression, cipher, r
         'one evaluation per decryption attempt compared with the original; non-trivial = more than one recipient, or a cipher/compression other '
         'than the default, or a body other than short ASCII; distinct = distinct case descriptors')
 ASSUMPTIONS = ['cryptography/OpenSSL RSA, ECDH and raw block ciphers', 'vf.ref sym/pk (self-consistent, and cross-checked against gpg in this check when gpg is present)']
-MIN_COUNTERS = {'quick': {'pgpy_roundtrips': 100, 'ref_opened_pgpy_output': 100, 'pgpy_opened_ref_output': 100, 'ciphers_seen': 9},
+MIN_COUNTERS = {'quick': {'short_rsa_session_key_integers': 6, 'pgpy_roundtrips': 100, 'ref_opened_pgpy_output': 100, 'pgpy_opened_ref_output': 100, 'ciphers_seen': 9},
                 'thorough': {'pgpy_roundtrips': 1500, 'ref_opened_pgpy_output': 1500, 'pgpy_opened_ref_output': 800}}
 BUDGET = {'quick': (600, 1500), 'thorough': (1800, 3600)}
 TECHNIQUE = 'runtime monitoring: differential reference-model monitor (independent RFC 4880/6637 decryptor and encryptor) + GnuPG second oracle'
@@ -95,6 +95,9 @@ def cases(tier, seed):
     cs.append({'d': 'B2'})
     for i in range(4 if tier == 'quick' else 40):
         cs.append({'d': 'R', 'i': i, 'seed': seed})
+    # RSA session-key integers with leading zero octets (one encryption in 256): written by the reference and by PGPy
+    for rn in ('rsa1024_1', 'rsa2048_1'):
+        cs.append({'d': 'S', 'rc': rn, 'seed': seed})
     # passphrase session-key packets whose wrapping cipher differs from the cipher of the data (what `gpg --symmetric --encrypt` writes)
     wrap = [7, 9, 3, 8, 13, 2, 11]
     for w in wrap:
@@ -109,7 +112,54 @@ def run_case(ctx, d):
     import pgpy
     with warnings.catch_warnings():
         warnings.simplefilter('ignore')
-        {'A': _A, 'B': _B, 'B2': _B2, 'B3': _B3, 'G': _G, 'refuse': _refuse, 'R': _R}[d['d']](ctx, d, pgpy)
+        {'A': _A, 'B': _B, 'B2': _B2, 'B3': _B3, 'G': _G, 'refuse': _refuse, 'R': _R, 'S': _S}[d['d']](ctx, d, pgpy)
+
+
+def _S(ctx, d, pgpy):
+    """an RSA-encrypted session key whose integer is at least one octet shorter than the modulus: the MPI on the wire is short, the value is not"""
+    from pgpy.constants import SymmetricKeyAlgorithm, CompressionAlgorithm
+    k, m = encwork.recipient(d['rc'])
+    modbits = m['n'].bit_length()
+    lit = encwork.literal_packet(b'short session-key integer', b'b', b'', 0)
+    sk = bytes(range(1, 17))
+    found = {'ref': [], 'pgpy': []}
+    pub = k.pubkey
+    msg = pgpy.PGPMessage.new(b'short session-key integer', format='b', compression=CompressionAlgorithm.Uncompressed)
+    for n in range(6000):
+        if len(found['ref']) < 2:
+            blob = encwork.ref_encrypt(lit, 7, sk, [('key', m)])
+            e = [p_ for p_ in wire.split(blob) if p_.tag == 1][0]
+            if int.from_bytes(e.body[10:12], 'big') <= modbits - 8:
+                found['ref'].append(blob)
+        if len(found['pgpy']) < 2:
+            enc = pub.encrypt(msg, cipher=SymmetricKeyAlgorithm.AES128)
+            blob = bytes(enc)
+            e = [p_ for p_ in wire.split(blob) if p_.tag == 1][0]
+            if int.from_bytes(e.body[10:12], 'big') <= modbits - 8:
+                found['pgpy'].append(blob)
+        if len(found['ref']) >= 2 and len(found['pgpy']) >= 2:
+            break
+    for prod, blobs in found.items():
+        for blob in blobs:
+            ctx.count('short_rsa_session_key_integers')
+            ctx.count('evaluations')
+            where = {'producer': prod, 'rc': d['rc'], 'mpi_bits': int.from_bytes([p_ for p_ in wire.split(blob) if p_.tag == 1][0].body[10:12], 'big'), 'modulus_bits': modbits}
+            view = encwork.ref_open(blob, [('key', m)])
+            if view['results'][0] is None or isinstance(view['results'][0], Exception):
+                ctx.fail('reference-cannot-recover-session-key', dict(where, err=repr(view['results'][0])[:120]))
+                continue
+            for form in ('binary', 'armor'):
+                try:
+                    em = pgpy.PGPMessage.from_blob(blob)
+                    if form == 'armor':
+                        em = pgpy.PGPMessage.from_blob(str(em))
+                    dec = k.decrypt(em)
+                    if bytes(dec._message._contents) != b'short session-key integer':
+                        ctx.fail('pgpy-decrypts-to-different-plaintext', where)
+                except Exception as e:
+                    ctx.fail('pgpy-cannot-decrypt-%s' % ('reference-message' if prod == 'ref' else 'own-output'), dict(where, form=form, err=repr(e)[:120]))
+    if len(found['ref']) + len(found['pgpy']) >= 2:
+        ctx.nontrivial(d)
 
 
 def _refuse(ctx, d, pgpy):
